@@ -82,9 +82,6 @@ Definition prelude (sn : nat) (ps : list param) : list instr :=
   | _ => Istore (sn, 0) :: map (fun i => Istore (sn, S i)) (seq 0 (length ps)) ++
          pv_code sn (length ps) (pv_params ps 0) 0 ++ [Iload (sn, 0)]
   end.
-(* the theorem covers filter parameters; value parameters are modelled (VM, den, correspondence of the final code is
-   checked through Run.v's full_pv switch) but excluded from [comp] until the proof of their prelude is done *)
-Definition no_pv (ps : list param) : bool := forallb (fun p => match p with PF _ => true | PV _ => false end) ps.
 Definition param_slots (ps : list param) : nat :=
   match ps with [] => 0 | _ => S (length ps) + length (pv_params ps 0) end.
 Definition param_env (sn : nat) (ps : list param) : list (N * cbind) :=
@@ -325,7 +322,6 @@ Fixpoint comp (q : query) (ce : cenv) (cur pc nv sn : nat) {struct q} : res :=
       (* compileFuncDef: jump over the definition; funcs += {f, pc of opscope, argcnt}; a new scope; opscope (lazy);
          the parameters; the body; opret.  Then the rest of the query, in the current scope, with f visible *)
       if Nat.ltb cur sn && ce_lt ce sn then
-      if no_pv ps then
       let ce' := add_fun ce f (S pc) (length ps) in
       let pre := prelude sn ps in
       match comp body (add_env (fun_env ce') (param_env sn ps)) sn (pc + 2 + length pre) (param_slots ps) (S sn) with
@@ -335,7 +331,6 @@ Fixpoint comp (q : query) (ce : cenv) (cur pc nv sn : nat) {struct q} : res :=
           | Some (cr, nv', s2) => Some (Ijump l :: Iscope sn nvb (length ps) :: pre ++ cb ++ Iret :: cr, nv', s2)
           | None => None end
       | None => None end
-      else None
       else None
   | QCallF f args =>
       match lookup_cf f (length args) (ce_env ce) with
